@@ -5,7 +5,11 @@ bbs.LoadGeneralArticles in a scratch BBSHOME; the extracted model is run on the 
 before each post plus the observed clock / random draws and must predict the state after; the
 clauses of the property text are evaluated directly on the implementation's own files. Bodies include the size
 boundaries of the body and of its lines (gen_size_cases); 'every submitted line' is decided line by line on what
-bbs.GetArticle returns (lines_clause)."""
+bbs.GetArticle returns (lines_clause). Posts are also made while shared memory that belongs to other features is in
+an unusual but legal condition (gen_env_cases: the board-cache busy flag left set by a loader that went away, per-board
+busy stamps, a cached count that is 0 / behind / ahead, a stale LastPostTime): every clause — in particular 'the cached
+count equals the index length' — is decided on them as on every other post, and the memory after must be what the
+model's post_seq_shm (cache.SetBTotal with that memory explicit) computes from the memory before."""
 import os, re, sys, time, calendar
 sys.path.insert(0, os.path.join(os.path.dirname(os.path.abspath(__file__)), "..", "lib"))
 import vf
@@ -43,7 +47,11 @@ class Cur:
                 n = self.blob()
                 files[n] = self.blob()
             boards.append({"total": total, "dir": d, "files": files})
-        return {"numposts": numposts, "boards": boards}
+        # shared memory the post path has no business with: Shm.BBusyState, per board Shm.BusyStateB / Shm.LastPostTime
+        shm = {"bbusy": self.num(), "busyb": [], "lastpost": []}
+        for _ in boards:
+            shm["busyb"].append(self.num()); shm["lastpost"].append(self.num())
+        return {"numposts": numposts, "boards": boards, "shm": shm}
 
 
 def tk(bs):
@@ -83,8 +91,21 @@ def canon_model(line):
     for _ in range(c.num()):
         idx = c.num(); fn = c.blob(); aid = c.blob()
         outs.append((idx, fn, aid))
-    st = c.state()
-    return canon(outs, st["numposts"], st["boards"])
+    numposts = [c.num() for _ in range(c.num())]
+    boards = []
+    for _ in range(c.num()):
+        total = c.num(); d = c.blob(); files = {}
+        for _ in range(c.num()):
+            n = c.blob(); files[n] = c.blob()
+        boards.append({"total": total, "dir": d, "files": files})
+    line = canon(outs, numposts, boards)
+    if c.p < len(t):                                  # op 3: bbusystate busystateb.. lastposttime..
+        line += " | " + " ".join(t[c.p:])
+    return line
+
+
+def canon_shm(shm):
+    return " | " + " ".join(str(x) for x in [shm["bbusy"]] + shm["busyb"] + shm["lastpost"])
 
 
 def parse_post(line):
@@ -217,6 +238,27 @@ def lines_clause(sc, q, r, want_title, name):
     return None
 
 
+def shm_class(pre, bi):
+    """signature of the condition the shared memory around the board cache was in when the post was made (part of
+    the violation key of the cached-count clause); empty for the condition of a freshly initialised cache"""
+    sh, b = pre["shm"], pre["boards"][bi]
+    if sh["bbusy"] != 0:
+        return ":board-cache-busy-flag-set"
+    if sh["busyb"][bi] != 0:
+        return ":board-busy-stamp-set"
+    if b["total"] != 0 and b["total"] != len(b["dir"]) // 128:
+        return ":stale-cached-count"
+    return ""
+
+
+def shm_words(pre, bi):
+    sh, b = pre["shm"], pre["boards"][bi]
+    if sh["bbusy"] == 0 and sh["busyb"][bi] == 0 and b["total"] in (0, len(b["dir"]) // 128):
+        return ""
+    return " (before the post: Shm.BBusyState %d, BusyStateB of the board %d, Shm.Total %d with %d entries in the index, LastPostTime %d)" % (
+        sh["bbusy"], sh["busyb"][bi], b["total"], len(b["dir"]) // 128, sh["lastpost"][bi])
+
+
 def role_ok(sc, u, bi):
     return sc["users"][u]["priv"] or u in sc["boards"][bi]["mods"]
 
@@ -280,7 +322,7 @@ def clauses(sc, q, r):
         bad.append(("body-lines" + size_class(q), d))
     # cached count = index length; author's counter + 1, nobody else's
     if ab_["total"] != len(ab_["dir"]) // 128:
-        bad.append(("cached-total", "Shm.Total %d, index holds %d entries" % (ab_["total"], len(ab_["dir"]) // 128)))
+        bad.append(("cached-total" + shm_class(pre, q["b"]), "Shm.Total %d, index holds %d entries%s" % (ab_["total"], len(ab_["dir"]) // 128, shm_words(pre, q["b"]))))
     wantnp = [n + (1 if i == q["u"] else 0) for i, n in enumerate(pre["numposts"])]
     if post["numposts"] != wantnp:
         bad.append(("numposts", "NumPosts %r -> %r, expected %r" % (pre["numposts"], post["numposts"], wantnp)))
@@ -307,6 +349,17 @@ def parse_scenario(line):
     return sc
 
 
+def enc_requests(qs):
+    """the requests of a scenario as they go into a replay file (an optional "env": the shared-memory line sent just before)"""
+    rs = []
+    for q in qs:
+        x = {"u": q["u"], "b": q["b"], "seed": q["seed"], "cls": list(q["cls"]), "title": list(q["title"]), "lines": [list(l) for l in q["lines"]], "edge": q.get("edge", 0), "shape": q.get("shape")}
+        if q.get("env"):
+            x["env"] = {"bbusy": list(q["env"]["bbusy"]), "boards": [[list(kv) for kv in b] for b in q["env"]["boards"]], "words": env_words(q["env"])}
+        rs.append(x)
+    return rs
+
+
 def replay(path):
     """./check C09 --replay f: re-run the recorded requests on the implementation built from the current tree and
     re-evaluate every clause on the last one."""
@@ -319,9 +372,14 @@ def replay(path):
         print("(no replayable request list: this replay names the obligation/correspondence that no longer checks)")
         sys.exit(1)
     qs = [{"u": x["u"], "b": x["b"], "seed": x["seed"], "cls": bytes(x["cls"]), "title": bytes(x["title"]), "lines": [bytes(l) for l in x["lines"]], "kind": "replay", "edge": x.get("edge", 0), "shape": x.get("shape")} for x in reqs]
+    for q, x in zip(qs, reqs):
+        if x.get("env"):
+            q["env"] = {"bbusy": tuple(x["env"]["bbusy"]), "boards": [tuple(tuple(kv) for kv in b) for b in x["env"]["boards"]]}
     impl = vf.build_impl()
-    out = vf.run_impl(impl, "C09", ["0", "2"] + [impl_line(q) for q in qs], deadline_ms=20000)
+    gl, pos = group_lines(qs)
+    out = vf.run_impl(impl, "C09", ["0"] + gl, deadline_ms=120000)
     sc = parse_scenario(out[0])
+    out = out[:2] + [out[1 + p_] for p_ in pos]
     violated = False
     for i, q in enumerate(qs):
         t = out[2 + i].split()
@@ -532,6 +590,95 @@ def gen_size_cases(c, sc):
     return groups
 
 
+# ------------------------------------------------------------------ I. unusual but legal conditions of the shared memory around a post
+KEEP = (0, 0)
+LISTED = (2, 0)          # somebody lists the board: cache.GetBTotalWithRetry puts the cached count in sync
+T_MAX = 2**31 - 1
+
+
+def env_line(e):
+    g = ["3", "%d %d" % e["bbusy"]]
+    for (busyb, total, last) in e["boards"]:
+        g.append("%d %d %d %d %d %d" % (busyb + total + last))
+    return "|".join(g)
+
+
+def env_words(e):
+    def one(kv, what, rel):
+        k, v = kv
+        return {0: None, 1: "%s=%d" % (what, v), 2: "%s in sync (board listed)" % what, 3: "%s=%s%+d" % (what, rel, v)}[k]
+    parts = [one(e["bbusy"], "Shm.BBusyState", "")]
+    for i, (busyb, total, last) in enumerate(e["boards"]):
+        parts += [one(busyb, "BusyStateB[%s]" % BOARDS[i], "now"), one(total, "Total[%s]" % BOARDS[i], "index length"), one(last, "LastPostTime[%s]" % BOARDS[i], "now")]
+    return ", ".join(x for x in parts if x) or "nothing changed"
+
+
+def gen_env_cases(c):
+    """Posts made while shared state that belongs to other features is in an unusual but legal condition: the
+    board-cache busy flag Shm.BBusyState left set by a loader that went away (any non-zero value; before the first
+    post, after the board was listed, set and cleared in the middle of a sequence), the per-board busy stamps of
+    ResetBoard (now, a few seconds ago, 1970, the far future), a cached count that is 0 / behind / ahead of the index,
+    a stale LastPostTime — and all of them at once. With the global flag set every lookup of a board by name sleeps a
+    second (two per post: the copy to ALLPOST), so these scenarios run in a driver of their own beside the others."""
+    rng = c.rng
+    thorough = c.tier == "thorough"
+    letters = b"abcdefghijklmnopqrstuvwxyzABCDEFGHIJKLMNOPQRSTUVWXYZ0123456789 -_:()"
+
+    def env(bbusy=None, b0=None, b1=None):
+        return {"bbusy": (1, bbusy) if bbusy is not None else KEEP, "boards": [b0 or (KEEP, KEEP, KEEP), b1 or (KEEP, KEEP, KEEP)]}
+
+    def brd(busyb=KEEP, total=KEEP, last=KEEP):
+        return (busyb, total, last)
+
+    def post(b, kind, e=None):
+        q = {"u": rng.randrange(3), "b": b, "cls": rng.choice([b"", b"test"]), "title": bytes(rng.choice(letters) for _ in range(rng.randrange(1, 40))),
+             "lines": [bytes(rng.choice(letters) for _ in range(rng.randrange(0, 30))) for _ in range(rng.randrange(1, 4))], "kind": kind, "seed": rng.randrange(1, 2**31)}
+        if e:
+            q["env"] = e
+        return q
+
+    nz = [1, -1, 2, T_MAX, -2**31, 255, 65536]
+    groups = []
+    b = rng.randrange(2)
+    # the board was listed (count in sync), then a loader died with the flag set: same board twice, then the other one
+    groups.append([post(b, "shm-busy-flag", env(1, brd(total=LISTED), brd(total=LISTED))), post(b, "shm-busy-flag"), post(1 - b, "shm-busy-flag")])
+    # the flag is set before anything was counted (Total 0 before the first post)
+    groups.append([post(1 - b, "shm-busy-flag", env(rng.choice(nz[1:]))), post(1 - b, "shm-busy-flag")])
+    # set and cleared in the middle of a sequence
+    groups.append([post(b, "shm-busy-flag"), post(b, "shm-busy-flag", env(rng.choice(nz))), post(b, "shm-busy-flag", env(0))])
+    # per-board busy stamps (ResetBoard's): now / five seconds ago on the other board; 1970 and the far future
+    groups.append([post(0, "shm-board-busy", env(None, brd(busyb=(3, 0), total=LISTED), brd(busyb=(3, -5)))), post(1, "shm-board-busy"), post(0, "shm-board-busy")])
+    groups.append([post(1, "shm-board-busy", env(None, brd(busyb=(1, T_MAX)), brd(busyb=(1, 1), total=LISTED))), post(0, "shm-board-busy"), post(1, "shm-board-busy")])
+    # a cached count behind / ahead of the index, a stale LastPostTime (0, 1970, tomorrow, the end of time)
+    groups.append([post(0, "shm-stale", env(None, brd(total=(3, -1), last=(3, 86400)), brd(total=(3, 3), last=(1, 1)))), post(1, "shm-stale"), post(0, "shm-stale")])
+    groups.append([post(1, "shm-stale", env(None, brd(total=LISTED, last=(1, 0)), brd(total=LISTED, last=(1, T_MAX)))), post(1, "shm-stale"),
+                   post(0, "shm-stale", env(None, brd(total=(1, 0)), brd(total=(3, -2))))])
+    # everything at once
+    groups.append([post(b, "shm-busy-flag", env(1, brd(busyb=(3, 0), total=(3, -1), last=(1, T_MAX)), brd(busyb=(3, -3), total=(3, 2), last=(3, 86400)))), post(1 - b, "shm-busy-flag")])
+    for _ in range(40 if thorough else 0):
+        def rb():
+            return brd(busyb=rng.choice([KEEP, (3, 0), (3, -rng.randrange(1, 20)), (1, rng.choice([1, T_MAX]))]),
+                       total=rng.choice([KEEP, LISTED, (3, rng.randrange(-3, 4)), (1, 0)]),
+                       last=rng.choice([KEEP, (1, 0), (1, 1), (1, T_MAX), (3, rng.randrange(-100000, 100000))]))
+        g = [post(rng.randrange(2), "shm-random", env(rng.choice([None, None, 0] + nz), rb(), rb()))]
+        for _ in range(rng.randrange(1, 4)):
+            g.append(post(rng.randrange(2), "shm-random", env(rng.choice([None, 0] + nz), rb(), rb()) if rng.random() < 0.3 else None))
+        groups.append(g)
+    return groups
+
+
+def group_lines(g):
+    """driver lines of one scenario (reset, then per request an optional shared-memory line and the post) and the
+    positions of the posts among them"""
+    lines, pos = ["2"], []
+    for q in g:
+        if q.get("env"):
+            lines.append(env_line(q["env"]))
+        pos.append(len(lines))
+        lines.append(impl_line(q))
+    return lines, pos
+
+
 def impl_line(q):
     return "1|%d %d %d %d|%s|%s|%s|%s" % (q["u"], q["b"], q["seed"], q.get("edge", 0), tk(q["cls"]), tk(q["title"]), enc_lines(q["lines"]), tk(IP))
 
@@ -548,11 +695,18 @@ def model_line(sc, pre, reqs):
     return "|".join(g)
 
 
+def model_line_shm(sc, pre, reqs):
+    sh = pre["shm"]
+    t = model_line(sc, pre, reqs).split("|")
+    return "|".join(["3", t[1], " ".join(str(x) for x in [sh["bbusy"]] + sh["busyb"]), " ".join(str(x) for x in sh["lastpost"])] + t[2:])
+
+
 def describe(q):
     ls = q["lines"]
     body = "[" + ", ".join(abbr(l, 40) for l in ls[:6]) + (", ... %d lines, %d bytes in all" % (len(ls), sum(len(l) for l in ls)) if len(ls) > 6 else "") + "]"
-    return "user=%s board=%s class=%r title=%r(len %d) lines=%s%s" % (USERS[q["u"]], BOARDS[q["b"]], q["cls"], q["title"], len(q["title"]), body,
-                                                                   " shape=%s" % q["shape"] if q.get("shape") else "")
+    return "user=%s board=%s class=%r title=%r(len %d) lines=%s%s%s" % (USERS[q["u"]], BOARDS[q["b"]], q["cls"], q["title"], len(q["title"]), body,
+                                                                     " shape=%s" % q["shape"] if q.get("shape") else "",
+                                                                     " [just before: %s]" % env_words(q["env"]) if q.get("env") else "")
 
 
 def main():
@@ -569,13 +723,56 @@ def main():
     sc0 = parse_scenario(vf.run_impl(impl, "C09", ["0"])[0])     # users / boards of the fixture: the size cases aim at exact file sizes
     groups = gen_cases(c)
     groups += gen_size_cases(c, sc0)
-    lines, index = ["0"], []
-    for gi, g in enumerate(groups):
-        lines.append("2")
-        for qi, q in enumerate(g):
-            index.append((len(lines), gi, qi))
-            lines.append(impl_line(q))
-    out = vf.run_impl(impl, "C09", lines, deadline_ms=20000)
+    n_main = len(groups)
+    groups += gen_env_cases(c)
+
+    def run_groups(lo, hi, box):
+        lines, idx = ["0"], []
+        for gi in range(lo, hi):
+            gl, pos = group_lines(groups[gi])
+            for qi, p_ in enumerate(pos):
+                idx.append((len(lines) + p_, gi, qi))
+            lines += gl
+        try:
+            box["out"] = vf.run_impl(impl, "C09", lines, deadline_ms=20000)
+        except BaseException as e:                     # SystemExit of a failed driver: re-raised in the main thread
+            box["err"] = e
+        box["idx"] = idx
+
+    # the scenarios with the busy flag set sleep (two seconds per post, in the code under test): a driver of their own
+    import threading
+    box_env, box_main = {}, {}
+    th = threading.Thread(target=run_groups, args=(n_main, len(groups), box_env))
+    th.start()
+    run_groups(0, n_main, box_main)
+    th.join()
+    for bx in (box_main, box_env):
+        if "err" in bx:
+            raise bx["err"]
+    out = box_main["out"]
+    index, outs_at = [], {}
+    for bx in (box_main, box_env):
+        for (li, gi, qi) in bx["idx"]:
+            index.append((li, gi, qi))
+            outs_at[(gi, qi)] = bx["out"][li]
+    if box_env["out"][0] != out[0]:
+        c.broken.append({"kind": "correspondence", "where": "the scenario description differs between the two drivers", "theorem": "correspondence scenario", "log": ""})
+
+    # a post that did not return within the deadline: the scenario is run again alone with a long deadline before it counts
+    hung = sorted(set(gi for (li, gi, qi) in index if outs_at[(gi, qi)].split()[0] in ("2", "7")))
+    for gi in hung:
+        gl, pos = group_lines(groups[gi])
+        o2 = vf.run_impl(impl, "C09", ["0"] + gl, deadline_ms=120000)
+        still = [qi for qi, p_ in enumerate(pos) if o2[1 + p_].split()[0] == "2"]
+        if still:
+            qi = still[0]
+            c.violation("hang:post-does-not-return", "bbs.CreateArticle did not return within 120 s — %s" % describe(groups[gi][qi]),
+                        {"cases": gl[:pos[qi] + 1], "request": describe(groups[gi][qi]), "requests": enc_requests(groups[gi][:qi + 1]), "got": "status 2 (no return within the deadline)"})
+        else:
+            for qi, p_ in enumerate(pos):
+                outs_at[(gi, qi)] = o2[1 + p_]
+    dead = set(gi for gi in hung if any(outs_at[(gi, qi)].split()[0] in ("2", "7") for qi in range(len(groups[gi]))))
+    index = [x for x in index if x[1] not in dead]
 
     sc = parse_scenario(out[0])      # scenario description reported by the driver
     if sc != sc0:
@@ -583,13 +780,12 @@ def main():
 
     results = {}
     for (li, gi, qi) in index:
-        results[(gi, qi)] = parse_post(out[li])
+        results[(gi, qi)] = parse_post(outs_at[(gi, qi)])
 
     # ------------------------------------------------------------ direct predicates from the property text
     def replay_obj(gi, qi, extra=None):
-        cases = ["2"] + [impl_line(q) for q in groups[gi][:qi + 1]]
-        o = {"cases": cases, "request": describe(groups[gi][qi]),
-             "requests": [{"u": q["u"], "b": q["b"], "seed": q["seed"], "cls": list(q["cls"]), "title": list(q["title"]), "lines": [list(l) for l in q["lines"]], "edge": q.get("edge", 0), "shape": q.get("shape")} for q in groups[gi][:qi + 1]]}
+        cases = group_lines(groups[gi][:qi + 1])[0]
+        o = {"cases": cases, "request": describe(groups[gi][qi]), "requests": enc_requests(groups[gi][:qi + 1])}
         if extra:
             o.update(extra)
         return o
@@ -663,6 +859,8 @@ def main():
         # sequences: the fold of the model from the first observed state must reach the last observed state
         seq_cases, seq_impl = [], []
         for gi, g in enumerate(groups):
+            if gi in dead or gi >= n_main:              # the scenarios with shared-memory lines are folded below (op 3)
+                continue
             rs = [results[(gi, qi)] for qi in range(len(g))]
             if len(g) < 2 or any(r["status"] != 0 or r["err"] != 0 or r["summary"] is None for r in rs):
                 continue
@@ -684,6 +882,41 @@ def main():
             sm = [canon_model(x) for x in vf.run_model(model, seq_cases)]
             vf.correspond(c, "sequence: fold of the model over the posts of a scenario = observed final state", seq_cases, seq_impl, sm)
             c.count(len(seq_cases), "model sequence fold")
+        # the posts made under unusual conditions of the shared memory: post_shm / post_seq_shm of the model (SetBTotal with
+        # Shm.BBusyState, BusyStateB, LastPostTime explicit) on the observed memory before must give the memory after —
+        # Total = index length, LastPostTime = the time in the new name, the busy flags as they were. Single steps, and
+        # the fold over every run of posts between two shared-memory lines.
+        e_cases, e_impl = [], []
+        for gi in range(n_main, len(groups)):
+            if gi in dead:
+                continue
+            g = groups[gi]
+            rs = [results[(gi, qi)] for qi in range(len(g))]
+            if any(r["status"] != 0 or r["err"] != 0 or r["summary"] is None for r in rs):
+                continue
+
+            def obs(qi):
+                tr = chosen[(gi, qi)]
+                return (g[qi], (tr[0], tr[1], tr[2], rs[qi]["summary"]["mtime"], rs[qi]["rnds"]))
+
+            def out_of(qi):
+                d = rs[qi]["post"]["boards"][g[qi]["b"]]["dir"]
+                return (len(d) // 128, d[-128:][:28], rs[qi]["summary"]["aid"])
+
+            starts = [qi for qi in range(len(g)) if qi == 0 or g[qi].get("env")] + [len(g)]
+            for a, b_ in zip(starts, starts[1:]):
+                if not all(rs[i]["post"] == rs[i + 1]["pre"] for i in range(a, b_ - 1)):
+                    c.broken.append({"kind": "correspondence", "where": "state continuity between consecutive posts (shared-memory scenarios)", "theorem": "correspondence sequence", "log": ""})
+                    continue
+                spans = [(qi, qi + 1) for qi in range(a, b_)] + ([(a, b_)] if b_ - a > 1 else [])
+                for (lo, hi) in spans:
+                    e_cases.append(model_line_shm(sc, rs[lo]["pre"], [obs(qi) for qi in range(lo, hi)]))
+                    last = rs[hi - 1]["post"]
+                    e_impl.append(canon([out_of(qi) for qi in range(lo, hi)], last["numposts"], last["boards"]) + canon_shm(last["shm"]))
+        if e_cases:
+            em = [canon_model(x) for x in vf.run_model(model, e_cases)]
+            vf.correspond(c, "post under any condition of the board cache's shared memory: state and memory after = post_seq_shm(state and memory before)", e_cases, e_impl, em)
+            c.count(len(e_cases), "model post_shm / post_seq_shm")
         # fetch: the model's decoder+lookup on the observed state returns the file
         f_cases, f_impl = [], []
         for (li, gi, qi) in index:
@@ -708,16 +941,26 @@ def main():
     c.cov["exhaustive_parts"] = ["every title length 0..70 (exact capacity) x class of 0 and 4 bytes x {SYSOP, moderator, plain verified user}",
                                  "every proper prefix of the announcement tag as a title x 3 classes x 3 authors",
                                  "body sizes through bbs.CreateArticle -> bbs.GetArticle: 0, 1, MAX_EDIT_LINE-1, MAX_EDIT_LINE, MAX_EDIT_LINE+1, 5000 lines; one line of 0, 79, 80, 81, 255, 256, "
-                                 "WRAPMARGIN, WRAPMARGIN+1, 4095, 4096, 70000 bytes; stored body / article file of 64 KiB-1, 64 KiB, 64 KiB+1 bytes (thorough: 1 MiB, up to 65537 lines)"]
+                                 "WRAPMARGIN, WRAPMARGIN+1, 4095, 4096, 70000 bytes; stored body / article file of 64 KiB-1, 64 KiB, 64 KiB+1 bytes (thorough: 1 MiB, up to 65537 lines)",
+                                 "conditions of the shared memory around a post (second driver, op 3): Shm.BBusyState non-zero before anything was counted / after the board was listed / set and "
+                                 "cleared inside a sequence; BusyStateB = now, seconds ago, 1970, 2^31-1; Total 0, behind, ahead of the index; LastPostTime 0, 1970, tomorrow, 2^31-1; all at once"]
     c.cov["distribution"]["posts"] = len(index)
     c.cov["distribution"]["scenarios(reset between)"] = len(groups)
+    c.cov["distribution"]["posts with Shm.BBusyState set"] = sum(1 for k_ in results if results[k_]["pre"]["shm"]["bbusy"] != 0)
+    c.cov["distribution"]["posts with a per-board busy stamp set"] = sum(1 for k_ in results if any(results[k_]["pre"]["shm"]["busyb"]))
+    c.cov["distribution"]["posts with a cached count out of sync before"] = sum(
+        1 for k_ in results if results[k_]["pre"]["boards"][groups[k_[0]][k_[1]]["b"]]["total"] not in (0, len(results[k_]["pre"]["boards"][groups[k_[0]][k_[1]]["b"]]["dir"]) // 128))
+    c.cov["distribution"]["scenarios dropped after a hang"] = len(dead)
     c.cov["distribution"]["clock straddled a second"] = sum(1 for k_ in results if results[k_]["t0"] != results[k_]["t1"])
     vf.ipc_cleanup()
-    c.finish(rule="real posts through bbs.CreateArticle in a scratch BBSHOME; title lengths / tag prefixes / body-size boundaries enumerated, title bytes, bodies and sequences from PRNG(seed); "
+    c.finish(rule="real posts through bbs.CreateArticle in a scratch BBSHOME; title lengths / tag prefixes / body-size boundaries / conditions of the board cache's shared memory enumerated, "
+                  "title bytes, bodies and sequences from PRNG(seed); "
                   "a case is non-trivial if it is a distinct (author, board, class, title, body) on which the post succeeded and every clause of the property text held",
              assumptions=["clock readings, math/rand draws and the file modification time are observed inputs of the model (reported by the driver, which seeds math/rand per case)",
                           "Go's fmt / time formatting, os file operations and rename(2) are re-specified in Model/C09.v and exercised by the correspondence, not verified",
-                          "the .post log (ptt.PostLog) and the cross-post copies in ALLPOST are outside this property's statement and are not compared"])
+                          "the .post log (ptt.PostLog) and the cross-post copies in ALLPOST are outside this property's statement and are not compared",
+                          "shared-memory conditions are set by the driver between requests (Shm.BBusyState, BusyStateB, Total, LastPostTime of the two scenario boards); another process writing the "
+                          "board cache while a post is in flight is not exercised; a post that does not return within 20 s is re-run alone with a 120 s deadline before it is reported"])
 
 
 if __name__ == "__main__":
